@@ -172,6 +172,14 @@ impl Chunk {
         })
     }
 
+    /// The names of the blocks rendered directly by this chunk (nested blocks)
+    pub(crate) fn rendered_blocks(&self) -> impl Iterator<Item = &str> {
+        self.instructions.iter().filter_map(|(i, _)| match i {
+            Instruction::RenderBlock(s) => Some(s.as_str()),
+            _ => None,
+        })
+    }
+
     pub(crate) fn get_span(&self, idx: u32) -> Option<&Span> {
         self.instructions
             .get(idx as usize)
